@@ -28,3 +28,10 @@ func TestPath(t *testing.T) {
 	a := New(t, c.Chain, c.Oracle, c.Bridger, c.Variant, c.MaxNonce, c.Stake)
 	graph.RunPath(t, a, a.W.Ctx)
 }
+
+func TestWalks(t *testing.T) {
+	var c consts
+	graph.Const(&c)
+	a := New(t, c.Chain, c.Oracle, c.Bridger, c.Variant, c.MaxNonce, c.Stake)
+	graph.RunWalks(t, a, a.W.Ctx, a.W.DumpHash)
+}
